@@ -1,5 +1,5 @@
 \* exhaustive, two commands (any candidate sets, overlapping or not) x <=1 replacement each, one fault, one restart
-CONSTANTS Nodes = {"n1", "n2"}  Cmds = {"A", "B"}  MaxRepl = 1  T = 1  MaxNow = 2  MaxFaults = 1  MaxRestarts = 1
+CONSTANTS Nodes = {"n1", "n2"}  Cmds = {"A", "B"}  MaxRepl = 1  T = 1  MaxNow = 2  MaxFaults = 1  MaxRestarts = 1  MaxCandVanish = 0
           DelFaults = TRUE  CodeMode = "code"  Weak = "none"  Serial = FALSE  Gen = FALSE  MaxLen = 0
 SPECIFICATION Spec
 INVARIANTS TypeOK Inv_C08_DeleteAfterAllInitialized Inv_C08_NoDeleteAfterFailure_Code Inv_C08_SingleCommandPerNode Inv_C08_RolledBackWhenQuiet Inv_C08_RolledBackByAction
